@@ -3,5 +3,7 @@
     ExtrOcamlString (ascii -> char, string -> char list).  nat/positive/Z stay extracted datatypes. *)
 From Coq Require Import Extraction ExtrOcamlBasic ExtrOcamlString.
 From MambaModel Require Import model.PyExpr model.CoreExpr gen.PrinterTable.
+From MambaModel Require Import model.LexTok gen.LexTables model.Lex.
 Extraction Language OCaml.
-Extraction "model.ml" ptoks as_py py_parse pexp wf generated canon table_ok.
+Extraction "model.ml" ptoks as_py py_parse pexp wf generated canon table_ok
+  tokenize spell synthetic.
